@@ -53,6 +53,9 @@ NESTED_IN_CLASS = ["class-before", "class-after", "class-after", "class-deep", "
                    "class-before+func-in-method"]
 NESTED_IN_FUNCTION = ["inner-func", "inner-func", "inner-class"]
 NESTED_CLASS_NAMES = ["Options", "Meta", "_Helper", "State"]
+# attributes a class documents on ITSELF (`:cvar` lines of the class docstring) while its `__init__` takes further
+# parameters: the names are disjoint from ARGS, so a documented attribute never coincides with an `__init__` parameter
+CVAR_NAMES = ["registry", "version", "backend", "tag", "kind_of_model", "verbose_name", "priority"]
 
 
 def _nested_init(rng, ind, taken, doc_style, annotated, name="__init__", first="self"):
@@ -88,10 +91,12 @@ def _nested_class(rng, ind, taken, doc_style, annotated, deep=False):
     return lines
 
 
-def gen_obj(rng, kind, name, doc_style, annotated, n_params, defaults, ret, class_doc=True, nested=None):
+def gen_obj(rng, kind, name, doc_style, annotated, n_params, defaults, ret, class_doc=True, nested=None, n_cvars=0):
     """source lines of one function or one class with __init__, plus its features.
     nested (default None: nothing nested, the stream of existing callers is unchanged): one of NESTED_IN_CLASS /
-    NESTED_IN_FUNCTION"""
+    NESTED_IN_FUNCTION
+    n_cvars (default 0: none, stream unchanged): how many attributes the class docstring documents (`:cvar` lines); only
+    for a class that has a docstring"""
     params = rng.sample(ARGS, n_params)
     ptypes = [rng.choice(TYPED) for _ in params]
     ndef = rng.randint(0, n_params) if defaults else 0
@@ -136,9 +141,15 @@ def gen_obj(rng, kind, name, doc_style, annotated, n_params, defaults, ret, clas
         lines.append("    return 1" if ret else "    pass")
     else:
         lines.append("class %s(object):" % name)
+        cvars = []
         if class_doc:
             lines.append('    """')
             lines.append("    The %s class." % name)
+            if n_cvars:
+                cvars = rng.sample(CVAR_NAMES, n_cvars)
+                lines.append("")
+                for cv in cvars:
+                    lines.append("    :cvar %s: %s" % (cv, rng.choice(["the %s", "The %s of the class.", "Which %s it is filed under"]) % cv))
             lines.append('    """')
             lines.append("")
         if "class-before" in nested:
@@ -163,6 +174,8 @@ def gen_obj(rng, kind, name, doc_style, annotated, n_params, defaults, ret, clas
                 class_doc=bool(class_doc), ndef=ndef)
     if nested:
         feat["nested"] = nested
+    if kind != "function" and cvars:
+        feat["cvars"] = cvars
     return lines, feat
 
 
@@ -191,8 +204,13 @@ def gen_input_module(rng, mostly_good=True, n_entries=None, kinds=None):
         nested = None
         if rng.random() < 0.3:
             nested = rng.choice(NESTED_IN_CLASS if kind == "class" else NESTED_IN_FUNCTION)
+        n_cvars = 0
+        if kind == "class" and class_doc and rng.random() < 0.3:
+            # the class documents SOME attributes on itself; __init__ adds two or more further parameters
+            n_cvars = rng.choice([1, 1, 2, 3])
+            n_params = rng.choice([2, 3, 3, 4, 5, 6])
         lines, feat = gen_obj(rng, kind, name, doc_style, annotated, n_params, rng.random() < 0.6, ret, class_doc,
-                              nested=nested)
+                              nested=nested, n_cvars=n_cvars)
         body += lines + ["", ""]
         key = name if rng.random() < 0.85 else rng.choice([name.lower() + "_k", "K" + name, name + "2"])
         entries.append({"key": key, "feat": feat})
